@@ -26,6 +26,7 @@ pub struct FnSpec {
     pub at: Vec<(String, String)>,
     pub lettype: BTreeMap<String, String>,
     pub whilelet: BTreeSet<usize>,
+    pub forloop: BTreeSet<usize>,
     pub may_panic: BTreeSet<usize>,
     pub letsplit: Vec<String>,
     pub refop: Vec<String>,
@@ -342,6 +343,7 @@ pub fn parse(text: &str) -> Result<Unit, String> {
                         let (n, ty) = a.split_once(char::is_whitespace).ok_or(format!("line {ln}: @argtype name Type"))?;
                         f.argtype.insert(n.to_string(), ty.trim().to_string());
                     }
+                    "forloop" => { for k in a.split_whitespace() { f.forloop.insert(k.parse().map_err(|_| format!("line {ln}: @forloop K"))?); } }
                     "whilelet" => { for k in a.split_whitespace() { f.whilelet.insert(k.parse().map_err(|_| format!("line {ln}: @whilelet K"))?); } }
                     "may-panic" => { for k in a.split_whitespace() { f.may_panic.insert(k.parse().map_err(|_| format!("line {ln}: @may-panic K"))?); } }
                     "letsplit" => f.letsplit.extend(a.split_whitespace().map(String::from)),
